@@ -53,20 +53,24 @@ def ref_encode(sn, v, prior: bytes = None) -> bytes:
     raise rs.NoRef(t)
 
 
+# 16-bit values whose bytes mean something to the framings (AA 55 header, unit + function code, exception function codes)
+FRAMING_WORDS = {0xAA55, 0x55AA, 0xAAAA, 0x5555, 0xF703, 0xF706, 0xF710, 0x7F03, 0xF783, 0xF786, 0x0300, 0x0600, 0x1000, 0xC07F, 0x7FC0}
+
+
 def domain(sn, rnd, n, full=False):
     """Values of the encodable domain: (value, class)."""
     t = type(sn).__name__
     if t in ("Integer",):
-        vals = range(65536) if full else sorted({0, 1, 2, 99, 100, 255, 256, 32767, 32768, 65534, 65535} | {rnd.randrange(65536) for _ in range(n)})
+        vals = range(65536) if full else sorted({0, 1, 2, 99, 100, 255, 256, 32767, 32768, 65534, 65535} | FRAMING_WORDS | {rnd.randrange(65536) for _ in range(n)})
         return [(v, "sentinel" if v == 65535 else "val") for v in vals]
     if t in ("Voltage", "Current"):
-        ks = range(65536) if full else sorted({0, 1, 5, 10, 2345, 32767, 32768, 65534, 65535} | {rnd.randrange(65536) for _ in range(n)})
+        ks = range(65536) if full else sorted({0, 1, 5, 10, 2345, 32767, 32768, 65534, 65535} | FRAMING_WORDS | {rnd.randrange(65536) for _ in range(n)})
         return [(k / 10, "sentinel" if k == 65535 else "val") for k in ks]
     if t in ("CurrentS", ):
         ks = range(-32768, 32768) if full else sorted({0, 1, -1, -32768, 32767} | {rnd.randrange(-32768, 32768) for _ in range(n)})
         return [(k / 10, "neg" if k < 0 else "val") for k in ks]
     if t == "IntegerS":
-        ks = range(-32768, 32768) if full else sorted({0, 1, -1, -32768, 32767} | {rnd.randrange(-32768, 32768) for _ in range(n)})
+        ks = range(-32768, 32768) if full else sorted({0, 1, -1, -32768, 32767} | {w - 65536 if w > 32767 else w for w in FRAMING_WORDS} | {rnd.randrange(-32768, 32768) for _ in range(n)})
         return [(k, "neg" if k < 0 else "val") for k in ks]
     if t == "Decimal":
         ks = range(-32768, 32768) if full else sorted({0, 1, -1, 57, 29, 113, -995, -32768, 32767} | {rnd.randrange(-32768, 32768) for _ in range(n)})
@@ -74,7 +78,8 @@ def domain(sn, rnd, n, full=False):
     if t in ("ByteH", "ByteL"):
         return [(v, "neg" if v < 0 else "val") for v in range(-128, 128)]
     if t == "Long":
-        vals = [0, 1, 65535, 65536, 0x7FFFFFFF, 0x80000000, 0xFFFFFFFE, 0xFFFFFFFF] + [rnd.randrange(2 ** 32) for _ in range(n)]
+        vals = [0, 1, 65535, 65536, 0x7FFFFFFF, 0x80000000, 0xFFFFFFFE, 0xFFFFFFFF, 0x0000AA55, 0xAA550000, 0x00AA5500, 0xFFFF0000, 0x0001FFFF] + \
+            [rnd.randrange(2 ** 32) for _ in range(n)]
         return [(v, "sentinel" if v == 0xFFFFFFFF else "val") for v in vals]
     if t == "LongS":
         vals = [0, 1, -1, -2 ** 31, 2 ** 31 - 1] + [rnd.randrange(-2 ** 31, 2 ** 31) for _ in range(n)]
